@@ -4,12 +4,42 @@ from ..report import Report
 from . import designlevel, pywire
 
 
+def _sm_int(sm):
+    v = sum(b << i for i, b in enumerate(sm[1:]))
+    return -v if sm[0] else v
+
+
+def _explained_by_d14(t, exp, obs):
+    """True iff obs differs from exp only at enum leaves whose default is non-zero, and there
+    obs == default | exp (the decoder ORs the wire value onto the default)."""
+    k = t["k"]
+    if gen.is_leaf(t):
+        e, o = _sm_int(exp), _sm_int(obs)
+        if e == o:
+            return True
+        return k == "enum" and t.get("_default", 0) != 0 and o == (t["_default"] | e)
+    if k == "alias":
+        return _explained_by_d14(t["to"], exp, obs)
+    if k == "array":
+        return all(_explained_by_d14(t["elem"], a, b) for a, b in zip(exp, obs))
+    return all(_explained_by_d14(f["t"], a, b) for f, a, b in zip(t["fields"], exp, obs))
+
+
 def sigs(case, evt, clause):
+    """The listed finding D14 only covers failures the defect explains: a decode whose result differs
+    from the encoded value exactly by default|value at enum leaves with a non-zero default, the
+    re-encode of such a result, or the enum class refusing such a value (ValueError)."""
     out = []
     t = case.prog["rtype"]
-    stage_ok = evt["ev"] in ("Decode", "ReEncode") or \
-        (evt["ev"] == "Raise" and evt["what"].split("@")[-1] in ("decode", "re-encode"))
-    if stage_ok and any(e.get("_default", 0) != 0 for e in pywire.enum_types(t)):
+    if not any(e.get("_default", 0) != 0 for e in pywire.enum_types(t)):
+        return out
+    if evt["ev"] == "Decode" and "expect" in evt:
+        if _explained_by_d14(t, evt["expect"], evt["v"]):
+            out.append("py-decode-onto-nonzero-enum-default")
+    elif evt["ev"] == "ReEncode":
+        out.append("py-decode-onto-nonzero-enum-default")
+    elif evt["ev"] == "Raise" and evt["what"].startswith("ValueError@") and \
+            evt["what"].split("@")[-1] in ("decode", "re-encode"):
         out.append("py-decode-onto-nonzero-enum-default")
     return out
 
